@@ -25,6 +25,14 @@ EXPLANATION = (
     "independent of parameter names/order); (6) the self-ask equality guards a path to the panic.")
 
 
+
+def _map_root(t):
+    """The value a map operand is taken from: the map itself, or the single field of the newtype around it."""
+    t = strip_wrappers(t)
+    while t[0] == "field":
+        t = strip_wrappers(t[2])
+    return t
+
 def run(run):
     for cfgname, f in run.for_configs():
         det = deadlock.get(f)
@@ -341,7 +349,7 @@ def _iterator_walk(run, f, det, hb, htr, want_start, want_target, hp):
     if start_ok:
         ga = [strip_wrappers(htr.norm(x)) for x in htr.call_args(first[1])]
         sp_ = ga[1]
-        start_ok = ga[0][0] == "param" and sp_ == ("param", want_start)
+        start_ok = _map_root(ga[0])[0] == "param" and sp_ == ("param", want_start)
     # next: |x| graph.get(&x.id) on the same map
     adv_ok = False
     if nxt[0] == "agg" and nxt[1][0] == "closure":
@@ -379,7 +387,7 @@ def _iterator_walk(run, f, det, hb, htr, want_start, want_target, hp):
     run.ok("O14.9", "walk-otherwise-false", "Iterator::any answers false when the chain ends or the bound is exhausted")
     # bound: take(graph.len())
     n_ = ta[1] if len(ta) > 1 else None
-    bound_ok = n_ is not None and n_[0] == "call" and deadlock.is_map_method(f, hb.blocks[n_[1]], "len") and strip_wrappers(htr.norm(htr.call_args(n_[1])[0]))[0] == "param"
+    bound_ok = n_ is not None and n_[0] == "call" and deadlock.is_map_method(f, hb.blocks[n_[1]], "len") and _map_root(htr.norm(htr.call_args(n_[1])[0]))[0] == "param"
     run.require(bound_ok, "O14.7", "walk-step-bound", "the walk is bounded by take(%s); a chain through all n edges of the wait-for graph needs n = graph.len() steps" % (show(n_) if n_ else None),
                 "walk bounded by take(graph.len())")
     return True
@@ -497,7 +505,7 @@ def direction(run, f, det):
             if st["k"] == "assign" and "agg" in st["rv"] and st["rv"].get("adt", "").endswith("ops::Range"):
                 end = strip_wrappers(htr.norm(htr.operand(st["rv"]["ops"][1])))
                 start = strip_wrappers(htr.norm(htr.operand(st["rv"]["ops"][0])))
-                is_len = end[0] == "call" and deadlock.is_map_method(f, hb.blocks[end[1]], "len") and strip_wrappers(htr.norm(htr.call_args(end[1])[0]))[0] == "param"
+                is_len = end[0] == "call" and deadlock.is_map_method(f, hb.blocks[end[1]], "len") and _map_root(htr.norm(htr.call_args(end[1])[0]))[0] == "param"
                 bound_ok = bool(is_len and start == ("int", 0))
                 if not bound_ok and end[0] == "binop" and end[1] == "Add":
                     a = strip_wrappers(end[2])
